@@ -27,6 +27,9 @@ const Absent = "<absent>"
 type Store struct {
 	Root string // project root; .ergo below it
 	Bin  string
+	// StdinPieces > 1: stdin is delivered in that many writes with short pauses between
+	// them (a producer that prints as it goes), not in one
+	StdinPieces int
 }
 
 // rewrite replaces the content of a result file and puts its modification time back
@@ -99,7 +102,21 @@ func (s *Store) runIn(dir string, stdin []byte, env []string, timeout time.Durat
 	cmd := exec.CommandContext(ctx, s.Bin, args...)
 	cmd.Dir = dir
 	cmd.Env = append([]string{"HOME=" + s.Root, "PATH=/usr/bin:/bin", "NO_COLOR=1"}, env...)
-	if stdin != nil {
+	if stdin != nil && s.StdinPieces > 1 && len(stdin) >= s.StdinPieces {
+		if w, err := cmd.StdinPipe(); err == nil {
+			n := s.StdinPieces
+			go func() {
+				defer w.Close()
+				for k := 0; k < n; k++ {
+					lo, hi := len(stdin)*k/n, len(stdin)*(k+1)/n
+					if _, err := w.Write(stdin[lo:hi]); err != nil {
+						return
+					}
+					time.Sleep(25 * time.Millisecond)
+				}
+			}()
+		}
+	} else if stdin != nil {
 		cmd.Stdin = bytes.NewReader(stdin)
 	} else {
 		f, _ := os.Open(os.DevNull)
@@ -147,7 +164,9 @@ func newStore(bin, root string) (*Store, error) {
 	_ = os.WriteFile(filepath.Join(root, "r2.txt"), []byte("result two\n"), 0o644)
 	_ = os.MkdirAll(filepath.Join(root, "sub"), 0o755)
 	_ = os.WriteFile(filepath.Join(root, "sub", "r3.txt"), []byte("result three\n"), 0o644)
-	_ = os.WriteFile(filepath.Join(root, "my file.txt"), []byte("unicode name\n"), 0o644)
+	for _, n := range []string{"my file.txt", "a#b.txt", "q?x=1.txt", "p%20c.txt", "100%.txt"} {
+		_ = os.WriteFile(filepath.Join(root, n), []byte("named "+n+"\n"), 0o644)
+	}
 	_ = os.WriteFile(filepath.Join(filepath.Dir(root), "out.txt"), []byte("outside\n"), 0o644)
 	_ = syscall.Mkfifo(filepath.Join(root, "pipe.fifo"), 0o644)
 	return s, nil
